@@ -30,6 +30,7 @@ type Case struct {
 	CrashBetween int // crash between steps with probability 1/CrashBetween
 	ExtraTicks   int // after each step's tick, 0..ExtraTicks further ticks at the same clock value
 	CrashAt      int  // 1-based crash opportunity at which the kernel crashes (0 = none)
+	scaled       bool
 	StopOnCrash  bool // end the timeline as soon as the kernel has crashed (crash-point enumeration)
 	Prime        int // up to Prime promises are created (deterministically, no faults) before the timeline starts
 	Setup        func(s *Sim)
@@ -51,6 +52,9 @@ type Campaign struct {
 	// Finish may add counters to the statistics before they are written
 	Finish func(st *core.Stats)
 }
+
+// DebugHook, when set by a test, is called with the simulation of a failing case (development aid).
+var DebugHook func(s *Sim, dir string)
 
 var (
 	knownPrinted   = map[string]bool{}
@@ -98,6 +102,13 @@ func NextDeadline(sn core.Snapshot, now int64) int64 {
 
 // RunCase executes the timeline of c on a fresh simulator and returns it (caller closes).
 func RunCase(d D, c *Case, dir string) *Sim {
+	if core.Tier() == "thorough" && !c.scaled {
+		// deeper exploration: longer timelines and more requests per step
+		c.scaled = true
+		c.Steps[1] = c.Steps[1] * 3 / 2
+		c.MaxRq++
+		c.Settle += 2
+	}
 	s := New(d, c.Cfg, c.Prof, dir)
 	s.CrashAt = c.CrashAt - 1
 	if c.Gen != nil && c.Gen.Dispatched == nil {
@@ -259,6 +270,9 @@ func RunCampaign(t *testing.T, c Campaign) {
 			}
 			dump["all_violations"] = all
 			core.SaveFailure("last", dump)
+			if DebugHook != nil {
+				DebugHook(s, dir)
+			}
 			rt.Fatalf("VIOLATION %s", v)
 		}
 	})
